@@ -129,7 +129,10 @@ Flat(qq) == IF qq = <<>> THEN <<>> ELSE Head(qq) \o Flat(Tail(qq))
 \* ---- family hist: case kinds -----------------------------------------------------------------
 AllMuts == {"none", "envAll", "envAct", "envNon", "unset", "unsetAct", "expand", "expandAct", "cdTmp", "cdUp",
             "cdSub", "timeout", "def", "refX", "files", "stdin", "statusFail", "statusSkip", "actorNull", "obsT",
-            "syntaxErr", "envBA", "envCleanup", "defLate", "cdLate", "timeoutLate", "homeConf"}
+            "syntaxErr", "envBA", "envCleanup", "defLate", "cdLate", "timeoutLate", "homeConf", "inclShared"}
+\* "inclShared": the case includes (in [setup]) a file that every such case includes, and which supplies an instruction
+\* of [assert] (org "incl": its text is in the shared file, the same for all cases).  What is included becomes part
+\* of THAT case only, before the case's own instructions of the phase - whatever other cases put after theirs
 \* "homeConf": the case sets its own home directory in [conf] (home = DIR).  That is a setting of THAT case: the
 \* machine does not thread it through the process, and every other case finds the files of its own default home
 \* (the harness lets every case that does not set it begin with an instruction that needs a file of that directory)
@@ -183,7 +186,8 @@ KindDoc(k) ==
                                  \o (IF e = "hard" THEN <<I("hard", "", "", NoVal)>> ELSE <<>>)
             [] p = "act"    -> IF e = "acthard" THEN <<I("actbad", "", "", NoVal)>>
                                ELSE <<I("actline", "sym", "", NoVal)>>
-            [] p = "assert" -> LateInstrs(m, p) \o (IF e = "fail" THEN <<I("fail", "", "", NoVal)>> ELSE <<>>)
+            [] p = "assert" -> (IF m = "inclShared" THEN From("incl", <<Probe("pi")>>) ELSE <<>>)
+                               \o LateInstrs(m, p) \o (IF e = "fail" THEN <<I("fail", "", "", NoVal)>> ELSE <<>>)
             [] p = "cleanup" -> LateInstrs(m, p) \o (IF e = "cleanuphard" THEN <<I("hard", "", "", NoVal)>> ELSE <<>>)
             [] OTHER        -> LateInstrs(m, p)]
 
@@ -677,8 +681,9 @@ EveryCase == Done => [j \in DOMAIN idents |-> idents[j][1]]
 MergeOrder == Done /\ inp.fam = "merge"
               => \A c \in Processed : Tags(LogOf(c)) = Tags(Declared(inp, c).log)
 \* nothing of the root suite reaches the case of the sub-suite (nor the other way round)
-NotInherited == \A j \in DOMAIN log : log[j].org = "case" \/ log[j].org = (IF HomeOf(inp, log[j].c) = 0 THEN "suite"
-                                                                            ELSE "sub")
+\* (org "incl": an instruction of a file the case itself includes)
+NotInherited == \A j \in DOMAIN log : log[j].org \in {"case", "incl"}
+                                      \/ log[j].org = (IF HomeOf(inp, log[j].c) = 0 THEN "suite" ELSE "sub")
 \* however the case is run - via the suite, with --suite, beside exactly.suite - it does what the property declares
 ThreeWaysAgree == Done /\ way # "plain"
                   => \A c \in Processed : IdentOf(c) = Declared(inp, c).id /\ LogOf(c) = Declared(inp, c).log
